@@ -15,7 +15,7 @@ const P3: &str = "#! mrasm\n*STACKSIZE 0\n LDSP 0x70\n LD R0, 0xC3\n ST (0x10), 
 /// leaves the limits alone (NOSET): the next load must still wipe the RAM and apply its own limits
 const P4: &str = "#! mrasm\n*PROGRAMSIZE NOSET\n*STACKSIZE NOSET\n LD R0, 0x99\n ST (0x60), R0\n ST (0xFE), R0\n .ORG 0x50\n .DB 1, 2, 3, 4\nL:\n JR L\n";
 
-const FOLLOW: [&str; 7] = [
+const FOLLOW: [&str; 11] = [
     "#! mrasm\nL:\n LD R0, (0xFC)\n LD R1, (0xFD)\n ADD R0, R1\n ST (0xFF), R0\n INC R2\n ST (0xFE), R2\n JR L\n",
     "#! mrasm\nF:\n PUSH R0\n CALL F\n",
     "#! mrasm\n*STACKSIZE 0\n LDSP 0xEF\n LD R0, 13\n LD R1, 11\nL:\n MUL R0, R1\n ST (0x80), R0\n DIV R0, R1\n PUSHF\n POP R2\n ST (0x81), R2\n INC R1\n JR L\n",
@@ -24,6 +24,12 @@ const FOLLOW: [&str; 7] = [
     "#! mrasm\n*STACKSIZE 0\n LD R0, 0x44\n ST (PATCH), R0\nPATCH:\n NOP\n ST (0xFE), R2\n LD R1, (0xFE)\n LD R3, 0\n",
     // interrupts enabled by the CPU flag alone: nothing may be pending from an earlier life
     "#! mrasm\n JR M\n INC R1\n ST (0xFE), R1\n RETI\nM:\n LDSP 0xEF\n EI\nL:\n INC R0\n ST (0xFF), R0\n JR L\n",
+    // limits left alone
+    "#! mrasm\n*PROGRAMSIZE NOSET\n*STACKSIZE NOSET\n LD R0, 3\n ST (0xFF), R0\n JR T\n .ORG 0x40\nT:\n STOP\nL:\n JR L\n",
+    // images without a single byte: comment only; directives only; NOSET only
+    "#! mrasm\n; nothing at all\n",
+    "#! mrasm\n*STACKSIZE 48\n*PROGRAMSIZE 20\n",
+    "#! mrasm\n*PROGRAMSIZE NOSET\n",
 ];
 
 fn compile(src: &str) -> ByteCode {
@@ -409,12 +415,20 @@ fn check_node(n: &Node, pr: &Progs) -> Vec<(String, String, String)> {
             continue;
         }
         // limits as the program states them: explicit values, else 16 / the image size
+        // (NOSET leaves the limit of the machine's earlier life in place)
         let exp_prog = match q.programsize {
             Programsize::Auto => Programsize::Size(img.len() as u8),
+            Programsize::NotSet => m.programsize(),
             other => other,
         };
-        if a.programsize() != exp_prog || (q.stacksize != Stacksize::NotSet && a.stacksize() != q.stacksize) {
-            bad.push(("load/limits".into(), format!("after load of follow-up #{}: limits {:?}/{:?}, the program states {:?}/{:?}", qi, a.stacksize(), a.programsize(), q.stacksize, exp_prog), format!("LoadFollow{}", qi)));
+        let exp_stack = if q.stacksize == Stacksize::NotSet { m.stacksize() } else { q.stacksize };
+        if a.programsize() != exp_prog || a.stacksize() != exp_stack {
+            bad.push(("load/limits".into(), format!("after load of follow-up #{}: limits {:?}/{:?}, the program states {:?}/{:?} (NOSET = the limit in force before: {:?}/{:?})", qi, a.stacksize(), a.programsize(), q.stacksize, q.programsize, m.stacksize(), m.programsize()), format!("LoadFollow{}", qi)));
+            continue;
+        }
+        let noset = q.programsize == Programsize::NotSet || q.stacksize == Stacksize::NotSet;
+        if noset && (a.stacksize() != f.stacksize() || a.programsize() != f.programsize()) {
+            // a NOSET program legitimately runs under the earlier limits: no comparison with a new machine
             continue;
         }
         if a.stacksize() != f.stacksize() || a.programsize() != f.programsize() {
